@@ -740,20 +740,34 @@ pub(super) async fn udp_main(sh: Rc<Shared>, ops: Vec<UdpOp>, peer4: Ipv4Addr, p
         let mtu = if op.lo { sh.cfg.lo_mtu } else { sh.cfg.mtu };
         let limit = mtu.saturating_sub(if op.v6 { IPV6_HDR } else { IPV4_HDR }).saturating_sub(UDP_HDR);
         let payload = vec![0x5au8; op.size as usize];
-        let r = sock.send_to(&payload, dst).await;
+        let connected = matches!(op.how, UdpHow::ConnSend | UdpHow::ConnTrySend);
+        if connected {
+            if let Err(e) = sock.connect(dst).await {
+                sh.obs.borrow_mut().harness_error = Some(format!("udp connect {dst} failed: {e}"));
+                return;
+            }
+        }
+        let (call, r) = match op.how {
+            UdpHow::SendTo => ("send_to", sock.send_to(&payload, dst).await),
+            UdpHow::TrySendTo => ("try_send_to", sock.try_send_to(&payload, dst)),
+            UdpHow::ConnSend => ("connect+send", sock.send(&payload).await),
+            UdpHow::ConnTrySend => ("connect+try_send", sock.try_send(&payload)),
+        };
         let mut o = sh.obs.borrow_mut();
-        o.log.ev(format!("udp#{i} send_to {dst} size={} limit={limit} -> {:?}", op.size, r.as_ref().map_err(|e| e.kind())));
+        o.log.ev(format!("udp#{i} {call} {dst} size={} limit={limit} -> {:?}", op.size, r.as_ref().map_err(|e| e.kind())));
+        o.log.tag(call);
         o.log.tag(if r.is_ok() { "udp-ok" } else { "udp-err" });
+        let path = if connected { "connected" } else { "unconnected" };
         match (&r, op.size <= limit) {
             (Ok(n), true) => {
-                o.probes.inc("udp_send_within_mtu_ok");
+                o.probes.inc(&format!("udp_{path}_send_within_mtu_ok"));
                 if *n != op.size as usize {
-                    o.fail16("UdpShortSend", format!("send_to of {} bytes (limit {limit}) returned Ok({n})", op.size));
+                    o.fail16("UdpShortSend", format!("{call} of {} bytes (limit {limit}) returned Ok({n})", op.size));
                 }
             }
-            (Err(_), false) => o.probes.inc("udp_oversize_rejected"),
-            (Ok(_), false) => o.fail16("UdpOversizeSent", format!("send_to {dst} with payload {} > {limit} (mtu {mtu}) returned Ok", op.size)),
-            (Err(e), true) => o.fail16("UdpRejected", format!("send_to {dst} with payload {} <= {limit} (mtu {mtu}) failed: {:?}", op.size, e.kind())),
+            (Err(_), false) => o.probes.inc(&format!("udp_{path}_oversize_rejected")),
+            (Ok(_), false) => o.fail16("UdpOversizeSent", format!("{call} to {dst} with payload {} > {limit} (mtu {mtu}) returned Ok", op.size)),
+            (Err(e), true) => o.fail16("UdpRejected", format!("{call} to {dst} with payload {} <= {limit} (mtu {mtu}) failed: {:?}", op.size, e.kind())),
         }
         drop(o);
         drop(sock);
@@ -825,6 +839,10 @@ pub fn run_conn(sc: &Scenario, keep: bool) -> Outcome {
         obs: RefCell::new(obs),
         sides: sc.sides.clone(),
         first_byte: [Gate::default(), Gate::default()],
+        writer_done: [Gate::default(), Gate::default()],
+        fin_delivered: Default::default(),
+        round: Default::default(),
+        hole_round: Default::default(),
         spawner: ex.spawner.clone(),
         hosts: Some([ch, shost]),
         stat_ip: Some(stat_ip),
@@ -1086,7 +1104,9 @@ fn drive(sc: &Scenario, mode: Mode, guard: &EnterGuard, ex: &mut Executor, sh: &
     let mut drain_left: Option<u32> = None;
     loop {
         st.rounds = round;
-        let mut active = false;
+        sh.round.set(round);
+        // a reader the scenario keeps asleep is scenario-imposed waiting, not a stall
+        let mut active = round <= sc.sides[0].read_delay.max(sc.sides[1].read_delay) + 2;
 
         // A. applications
         let force = sc.spurious > 0 && round % sc.spurious as u32 == sc.spurious as u32 - 1;
@@ -1146,6 +1166,7 @@ fn drive(sc: &Scenario, mode: Mode, guard: &EnterGuard, ex: &mut Executor, sh: &
                     st.faults.inc("blackhole_drop");
                     if st.hole_round.is_none() {
                         st.hole_round = Some(round);
+                        sh.hole_round.set(Some(round));
                         active = true;
                     }
                 }
@@ -1181,6 +1202,9 @@ fn drive(sc: &Scenario, mode: Mode, guard: &EnterGuard, ex: &mut Executor, sh: &
         }
         for f in due {
             st.wire.on_deliver(&f.pkt, &f.info);
+            if f.info.kind == Kind::Fin {
+                sh.fin_delivered[1 - f.info.dir as usize].set(true);
+            }
             sh.obs.borrow_mut().log.ev(format!("r{round} deliver #{}", f.info.idx));
             guard.deliver(f.pkt);
         }
